@@ -173,12 +173,19 @@ func traceBackup(t *testing.T, o opts) {
 		kh, _ := keyset.NewHandle(aead.AES256GCMKeyTemplate())
 		kek, _ := aead.New(kh)
 		path := filepath.Join(dir, "setec.db")
+		// a third of the servers start on a database that an earlier run created and wrote to
+		reopened := r.Intn(3) == 0
+		if reopened {
+			if d0, err := db.Open(path, kek, audit.New(io.Discard)); err == nil {
+				d0.Put(suCaller(), "earlier", []byte("written by the previous run"))
+			}
+		}
 		done := make(chan string, 1)
 		wl := make([]string, len(writes))
 		for i, w := range writes {
 			wl[i] = fmt.Sprint(w)
 		}
-		head := fmt.Sprintf("backup\twrites=%s\tscript=%s\tlatency=%d\trace=%d\tcancel=%d", strings.Join(wl, ","), strings.Join(script, ","), latency, race, cancel)
+		head := fmt.Sprintf("backup\treopened=%s\twrites=%s\tscript=%s\tlatency=%d\trace=%d\tcancel=%d", b01(reopened), strings.Join(wl, ","), strings.Join(script, ","), latency, race, cancel)
 		go func() {
 			res := ""
 			synctest.Test(t, func(t *testing.T) {
